@@ -30,7 +30,7 @@ import (
 func main() {
 	fams := flag.String("fams", "", "comma-separated family names (default all)")
 	kflag := flag.Int("k", 0, "max sequence length (default 4 quick / 5 thorough)")
-	nflag := flag.Int("n", 0, "menu size (default 4 quick / 8 thorough; menus have 12 ops)")
+	nflag := flag.Int("n", 0, "menu size (default 4 quick / 6 thorough; menus have 12 ops)")
 	nomemo := flag.Bool("nomemo", false, "disable state memoisation")
 	gcp := flag.Int("gc", 30, "GC percent")
 	r := vk.New("model_checking")
@@ -41,7 +41,7 @@ func main() {
 	}
 	k, n := 4, 4
 	if r.Thorough() {
-		k, n = 5, 8
+		k, n = 5, 6
 	}
 	if *kflag > 0 {
 		k = *kflag
@@ -50,14 +50,12 @@ func main() {
 		n = *nflag
 	}
 	var sel []*rx.Family
-	for _, f := range shapes.All() {
+	for _, f := range shapes.AllC06() { // the 8 single-realm families + the two-realm family (no reference: its cuts are compared with each other)
 		if *fams != "" && !strings.Contains(","+*fams+",", ","+f.Name+",") {
 			continue
 		}
 		fn := n
-		if r.Quick() && *nflag == 0 && f.QuickN > 0 {
-			fn = f.QuickN
-		}
+		// (QuickN is the C06 menu size of the two-realm family; C03 uses the common size)
 		if len(f.Ops) > fn {
 			f.Ops = f.Ops[:fn]
 		}
